@@ -521,6 +521,13 @@ static int find_var(const struct cat_variable *v, int *ci, int *vi)
         return *ci < ncmd && *vi < wc[*ci].nvar;
 }
 
+/* "non-zero" failure values of variable callbacks: positive, negative, small, large */
+static int fail_value(int k)
+{
+        static const int vals[6] = { 1, -2, 22, -128, 0x7fffffff, -1 };
+        return vals[(unsigned)k % 6];
+}
+
 static int v_read(const struct cat_variable *v)
 {
         int ci = 0, vi = 0, r;
@@ -533,7 +540,7 @@ static int v_read(const struct cat_variable *v)
                 return 1;
         }
         w = &wc[ci].var[vi];
-        r = (++w->rcalls == w->rfail) ? 1 : 0;
+        r = (++w->rcalls == w->rfail) ? fail_value(ci + vi + w->rcalls) : 0;
         emit("V %ld %d %d r 0 %d\n", stepno, ci, vi, r);
         return r;
 }
@@ -550,7 +557,7 @@ static int v_write(const struct cat_variable *v, size_t n)
                 return 1;
         }
         w = &wc[ci].var[vi];
-        r = (++w->wcalls == w->wfail) ? -2 : 0;
+        r = (++w->wcalls == w->wfail) ? fail_value(ci + vi + w->wcalls + 1) : 0;
         emit("V %ld %d %d w %zu %d\n", stepno, ci, vi, n, r);
         return r;
 }
